@@ -24,17 +24,18 @@ type RoundTrip struct {
 
 // Session is a sequence of jd processes on one simulated disk.
 type Session struct {
-	Kind      string      `json:"kind"`
-	Sector    int         `json:"sector"`
-	FileChunk int         `json:"file_chunk,omitempty"`
-	StdoutTTY bool        `json:"stdout_tty,omitempty"` // stdout is a terminal (or /dev/null): a character device
-	Env       [][2]string `json:"env,omitempty"`        // environment variables of every process
-	Links     [][2]string `json:"links,omitempty"`      // symbolic links: name, target
-	Arg0      string      `json:"arg0,omitempty"`       // how the binary is called
-	Files     []File      `json:"files"`
-	Dirs      []string    `json:"dirs,omitempty"`
-	Procs     []ProcSpec  `json:"procs"`
-	RT        *RoundTrip  `json:"round_trip,omitempty"`
+	Kind      string            `json:"kind"`
+	Sector    int               `json:"sector"`
+	FileChunk int               `json:"file_chunk,omitempty"`
+	StdoutTTY bool              `json:"stdout_tty,omitempty"` // stdout is a terminal (or /dev/null): a character device
+	Env       [][2]string       `json:"env,omitempty"`        // environment variables of every process
+	Clock     simos.ClockPolicy `json:"clock,omitempty"`      // how simulated time passes for every process
+	Links     [][2]string       `json:"links,omitempty"`      // symbolic links: name, target
+	Arg0      string            `json:"arg0,omitempty"`       // how the binary is called
+	Files     []File            `json:"files"`
+	Dirs      []string          `json:"dirs,omitempty"`
+	Procs     []ProcSpec        `json:"procs"`
+	RT        *RoundTrip        `json:"round_trip,omitempty"`
 }
 
 // Variant selects which clause of C14 a case evaluates.
@@ -111,7 +112,7 @@ func runSession(s Session, fs *simos.FS, withModel bool, stopAfterFault bool) *s
 		if p.Arg0 == "" {
 			p.Arg0 = s.Arg0
 		}
-		res := runProc(fs, p, IOCfg{s.Sector, s.FileChunk, s.StdoutTTY, s.Env}, prev)
+		res := runProc(fs, p, IOCfg{s.Sector, s.FileChunk, s.StdoutTTY, s.Env, s.Clock}, prev)
 		r.Res = append(r.Res, res)
 		r.FSPost = append(r.FSPost, fs.Clone())
 		r.Log = append(r.Log, eventLog(i, res)...)
